@@ -177,3 +177,46 @@ def reachable_under(body, F, pred_sym, value):
             if s not in seen and not body.is_cleanup(s):
                 seen.add(s); work.append(s)
     return seen
+
+
+class NoEval(Exception):
+    pass
+
+
+def eval_sym(sym, leaf):
+    """integer value of an extracted arithmetic expression; `leaf(sym)` supplies the value of recognised inputs"""
+    v = leaf(sym)
+    if v is not None:
+        return v
+    k = sym[0]
+    if k == 'k':
+        try:
+            return int(sym[1])
+        except ValueError:
+            raise NoEval(str(sym)[:60])
+    if k == 'proj' and sym[2] == '.0':
+        return eval_sym(sym[1], leaf)
+    if k == 'cast':
+        x = eval_sym(sym[1], leaf)
+        to = sym[-1]
+        bits = {'u8': 8, 'u16': 16, 'u32': 32, 'u64': 64, 'usize': 64}.get(to)
+        if bits is None:
+            raise NoEval('cast to ' + str(to))
+        return x & ((1 << bits) - 1)
+    if k == 'bin':
+        a, b = eval_sym(sym[2], leaf), eval_sym(sym[3], leaf)
+        op = sym[1].replace('WithOverflow', '')
+        if op == 'Add': return a + b
+        if op == 'Sub':
+            if a - b < 0:
+                raise NoEval('underflow')
+            return a - b
+        if op == 'Mul': return a * b
+        if op == 'BitAnd': return a & b
+        if op == 'BitOr': return a | b
+        if op == 'Shr': return a >> b
+        if op == 'Shl': return a << b
+        raise NoEval('op ' + sym[1])
+    raise NoEval(str(sym)[:60])
+
+
